@@ -1208,6 +1208,59 @@ def element_landing(repo, loop, var, element, attrs):
     return "absent", None
 
 
+class _StopAtCall(Exception):
+    pass
+
+
+def call_landing(repo, body, var, element):
+    """EVALUATE a from_dict branch on ONE concrete element dictionary up to its first `wn.add_*(...)` call: -> ('called', callee, positional values,
+    keyword values) | ('raises', text) | ('none',).  Same abstract model as element_landing."""
+    from ..peval import Obj, Unknown, Raised
+    Ev, hook0 = concrete_evaluator(repo)
+    got = []
+
+    def hook(name, n, ev):
+        f = n.func
+        if isinstance(f, ast.Attribute):
+            if f.attr in ("setdefault", "pop", "get") and 1 <= len(n.args) <= 2 and not n.keywords:
+                base = ev.ev(f.value)
+                if isinstance(base, dict):
+                    k = ev.ev(n.args[0])
+                    dflt = ev.ev(n.args[1]) if len(n.args) == 2 else None
+                    if f.attr == "setdefault":
+                        return base.setdefault(k, dflt)
+                    if f.attr == "get":
+                        return base.get(k, dflt)
+                    if k in base or len(n.args) == 2:
+                        return base.pop(k, dflt)
+                    raise _PyExc("KeyError")
+            if f.attr in ("lower", "upper", "strip") and not n.args:
+                b = ev.ev(f.value)
+                if isinstance(b, str):
+                    return getattr(b, f.attr)()
+            if isinstance(f.value, ast.Name) and isinstance(ev.env.get(f.value.id), Obj) and ev.env[f.value.id].name == "wn" and f.attr.startswith("add_"):
+                got.append((f.attr, [ev.ev(a) for a in n.args], {kw.arg: ev.ev(kw.value) for kw in n.keywords if kw.arg}))
+                raise _StopAtCall()
+        return hook0(name, n, ev)
+
+    def consts(dn):
+        raise Unknown("unbound name %s" % dn)
+    ev = Ev({var: element, "wn": Obj("wn", {})}, consts, hook, lambda obj, attr: NotImplemented)
+    try:
+        ev.block(list(body))
+    except _StopAtCall:
+        return ("called",) + got[0]
+    except Raised as r:
+        return ("raises", norm(r.node))
+    except _PyExc as e:
+        return ("raises", e.kind)
+    except (_Continue, _Break):
+        pass
+    except Unknown as e:
+        raise ExtractError("from_dict: the statements before the add_* call of the branch are not evaluable on %r: %s" % (element, e))
+    return ("none",)
+
+
 def doc_type_words(getter):
     """identifiers in the type part (before the first ':' of the first line) of a numpy-style property docstring."""
     doc = ast.get_docstring(getter) or "" if getter is not None else ""
@@ -1308,7 +1361,35 @@ def rule_values(repo, chk, ct, fd, emits):
                         continue
                     lands = {a for a in br.attr_land.get(k, ()) if a in (k, "_" + k)}
                     if not lands:
-                        continue        # not restored by a direct assignment (add_* keyword ...): R-C13-1 covers where it lands
+                        # restored through an argument of wn.add_*(...): R-C13-1 decides WHERE it lands; R-C13-7b that the legal value 0.0 reaches the call
+                        sites = sorted(br.call_land.get(k, ()), key=str)
+                        why = numeric_domain(ct, cn, k, info) if sites else None
+                        # an int() / float() conversion in the setter alone is weak evidence here (initial_status converts an enum member with int();
+                        # to_dict emits its name, never the number 0): only a documented numeric type or a numeric initial value counts
+                        if why and not why.startswith("setter converts"):
+                            base0 = dict(base)
+                            for k2 in pub:
+                                if k2.endswith("_node_name"):
+                                    base0[k2] = "N_" + k2
+                            ref = call_landing(repo, loop.body, var, dict(base0, **{k: 7.25}))
+                            got = call_landing(repo, loop.body, var, dict(base0, **{k: 0.0}))
+
+                            def where(res, value):
+                                if res[0] != "called":
+                                    return None
+                                hits = [("#%d" % i) for i, v in enumerate(res[2]) if isinstance(v, (int, float)) and not isinstance(v, bool) and v == value]
+                                hits += [kw for kw, v in res[3].items() if isinstance(v, (int, float)) and not isinstance(v, bool) and v == value]
+                                return hits
+                            w_ref = where(ref, 7.25)
+                            if not w_ref:
+                                continue          # the key is not handed to the call as a number of its own (a pump's power / curve parameter): outside this rule
+                            w0 = where(got, 0.0) or []
+                            ok = got[0] == "called" and all(p_ in w0 for p_ in w_ref)
+                            chk.expect(ok, "R-C13-7b", "%s key %r (numeric: %s): the value 0.0 reaches %s(...) like any other number" % (cn, k, why, ref[1]), loc(fd, loop),
+                                       "to_dict emits %r = 0.0 (a legal value); the %s branch of from_dict evaluated on such a dictionary must hand 0.0 to the same parameter that receives "
+                                       "7.25 -- a default substituted through `or` / a truthiness test treats 0.0 like a missing key" % (k, tname),
+                                       expected="0.0 in %s" % w_ref, found="%s" % (got[1:] if got[0] == "called" else got,))
+                        continue
                     settable = info["kind"] in ("inst", "classattr") or (info.get("setter") is not None and not only_raises(info["setter"]))
                     # --- R-C13-6: embedded objects
                     objs = object_domain(emb, inp_attrs, k, info) if settable else set()
@@ -1341,6 +1422,7 @@ def rule_values(repo, chk, ct, fd, emits):
                                    expected="%s.%s = 0.0" % (cn, k), found="%s %r" % (res, val))
     chk.floor("R-C13-6", 2)
     chk.floor("R-C13-7", 12)
+    chk.floor("R-C13-7b", 8)
 
 
 def demand_entry_reads(body):
@@ -3284,6 +3366,9 @@ WITNESSES = [
          new="        for act in self._then_clauses:\n            words = act.strip().split()\n            if len(words) < 6:\n                # TODO: raise error\n                pass\n            is_node = words[1].upper() in {'NODE', 'JUNCTION', 'TANK', 'RESERVOIR'}\n"
              "            link = model.get_node(words[2]) if is_node else model.get_link(words[2])\n            attr = words[3].lower()\n"
              "            value = (words[5].upper() == 'TRUE') if attr == 'leak_status' else ValueCondition._parse_value(words[5])\n", silent=True),
+    dict(name="pump-speed-defaulted-through-or", file=NIO, old='speed=link.setdefault("base_speed", 1.0),', new='speed=link.get("base_speed") or 1.0,', rule="R-C13-7b"),
+    dict(name="pump-speed-defaulted-by-an-is-none-test-preserving", file=NIO, old='speed=link.setdefault("base_speed", 1.0),',
+         new='speed=1.0 if link.setdefault("base_speed") is None else link["base_speed"],', silent=True),
     dict(name="revert-287c3d8b-mixing-fraction-truthiness-guard", file=NIO, old='if node.setdefault("mixing_fraction") is not None:', new='if node.setdefault("mixing_fraction"):',
          rule="R-C13-7"),
     dict(name="bulk-coeff-guarded-by-truthiness-through-a-temporary", file=NIO, old='                t.bulk_coeff = node.setdefault("bulk_coeff")\n',
